@@ -26,12 +26,14 @@ BASE      {"kind":"linear","n":..,"n_actions":..,"n_ctx":..,"n_act":..,"seed":..
               form "xy"     = Environments.from_supervised(X, Y, label_type=..)  (X, Y given as LISTS)
 OP        ["chunk",{"cache":bool}] ["cache",{}] ["shuffle",{"n":k}|{"seeds":[..]}|{"seed":s}] ["take",{"n":k}]
           ["noise",{"context":[m,s]|None,"action":..,"reward":..,"seed":s|[s..]}] ["binary",{}] ["params",{..}]
-          ["logged",{"learners":[LEARNER..],"seed":float}] ["reservoir",{"n":k,"seeds":[..]}]
+          ["logged",{"learners":[LEARNER..],"seed":float}] ["reservoir",{"n":k,"seeds":[..]}] ["batch",{"n":k}]
           ["fault_read",{"at":j,"msg":m}] ["fault_params",{"msg":m}]
 LEARNER   {"kind":"random","seed":s} {"kind":"epsilon","epsilon":e,"seed":s} {"kind":"ucb","seed":s}
           {"kind":"corral","base":[LEARNER..],"base_refs":[li..],"seed":s}     (default eta; base_refs = *the same objects*
                                                                                  as listed learners li, appended to base)
-          {"kind":"history","tag":t,"fmt":"a|ap|pmf|ap_kw|pmf_kw","score":bool,"info":bool}
+          {"kind":"history","tag":t,"fmt":"a|ap|pmf|ap_kw|pmf_kw","score":bool,"info":bool,"batch":bool}
+              (batch: this instance takes batched calls natively - fmt ap/pmf only; otherwise it raises on a batch and
+               SafeLearner falls back to row-by-row calls. Built-in bandit learners never take batches.)
           {"kind":"faulty","inner":LEARNER,"where":"params|predict|learn","at":j,"msg":m}
 EVALUATOR {"kind":"seq","record":[..],"learn":..,"eval":..,"seed":..}
           {"kind":"rejection","record":[..],"seed":..,"cpct":..}
@@ -73,7 +75,7 @@ def build_learner(d, listed=None):
     if k == "random":  return RandomLearner(seed=d.get("seed", 1))
     if k == "epsilon": return BanditEpsilonLearner(d.get("epsilon", 0.05), seed=d.get("seed", 1))
     if k == "ucb":     return BanditUCBLearner(seed=d.get("seed", 1))
-    if k == "history": return comps.HistoryLearner(d["tag"], d.get("fmt", "ap"), d.get("score", False), d.get("info", False))
+    if k == "history": return comps.HistoryLearner(d["tag"], d.get("fmt", "ap"), d.get("score", False), d.get("info", False), d.get("batch", False))
     if k == "corral":
         base = [build_learner(b) for b in d.get("base", [])]
         for r in d.get("base_refs", []):
@@ -128,6 +130,7 @@ def apply_op(envs, op):
         if "seeds" in a:  return envs.shuffle(list(a["seeds"]))
         return envs.shuffle(a.get("seed", 1))
     if name == "take":    return envs.take(a["n"])
+    if name == "batch":   return envs.batch(a["n"])
     if name == "reservoir": return envs.reservoir(a["n"], seeds=list(a.get("seeds", [1])))
     if name == "binary":  return envs.binary()
     if name == "params":  return envs.params(dict(a))
@@ -500,7 +503,7 @@ RECORDS = ["reward", "action", "probability", "context", "actions", "rewards", "
 def _subset(draw, items, always=()):
     return [x for x in items if x in always or draw(st.booleans())]
 
-def learner_desc(draw, tag, logged=False, allow_corral=True, p_history=0.5, kw_ok=True):
+def learner_desc(draw, tag, logged=False, allow_corral=True, p_history=0.5, kw_ok=True, batched=False):
     r = draw(st.integers(0, 99))
     seed = draw(st.integers(0, 6))
     if r < p_history * 100:
@@ -508,8 +511,13 @@ def learner_desc(draw, tag, logged=False, allow_corral=True, p_history=0.5, kw_o
             fmt = draw(st.sampled_from(["ap", "pmf", "ap", "pmf", "a"]))
             return {"kind": "history", "tag": tag, "fmt": fmt, "score": True, "info": draw(st.booleans())}
         fmts = ["ap", "pmf", "a", "ap_kw", "pmf_kw"] if kw_ok else ["ap", "pmf", "a"]
-        return {"kind": "history", "tag": tag, "fmt": draw(st.sampled_from(fmts)), "score": draw(st.booleans()), "info": draw(st.booleans())}
-    k = draw(st.sampled_from(["random", "epsilon", "ucb", "corral"] if (allow_corral and not logged) else ["random", "epsilon", "ucb"]))
+        if batched: fmts = ["ap", "pmf", "ap", "pmf", "a", "ap_kw"] if kw_ok else ["ap", "pmf", "ap", "pmf", "a"]
+        d = {"kind": "history", "tag": tag, "fmt": draw(st.sampled_from(fmts)), "score": draw(st.booleans()), "info": draw(st.booleans())}
+        if batched: d["batch"] = draw(st.booleans())
+        return d
+    kinds = ["random", "epsilon", "ucb", "corral"] if (allow_corral and not logged) else ["random", "epsilon", "ucb"]
+    if batched: kinds = ["random", "epsilon", "epsilon"]   # BanditUCB.learn swallows a whole batch without raising (first call), so no row-by-row fallback: not C01/C03's
+    k = draw(st.sampled_from(kinds))
     if k == "random":  return {"kind": "random", "seed": seed}
     if k == "epsilon": return {"kind": "epsilon", "epsilon": draw(st.sampled_from([0.0, 0.1, 0.5, 1.0])), "seed": seed}
     if k == "ucb":     return {"kind": "ucb", "seed": seed}
@@ -539,8 +547,10 @@ def evaluator_desc(draw, tag, logged=False, kinds=None):
         return {"kind": "fn", "name": draw(st.sampled_from(["rows", "summary"]))}
     return {"kind": "tag", "tag": tag, "stride": draw(st.integers(1, 4)), "seed": seed}
 
-def base_desc(draw, max_n, unit_only=False):
-    n = draw(st.integers(1, max_n))
+MIN_BATCHED_N = 8     # batched environments: at least one full batch of 6-8 interactions (see group_desc)
+
+def base_desc(draw, max_n, unit_only=False, min_n=1):
+    n = draw(st.integers(min(min_n, max_n), max_n))
     seed = draw(st.integers(0, 9))
     kinds = ["bandit", "lambda", "lambda", "supervised"] if unit_only else ["linear", "neighbors", "bandit", "lambda", "lambda", "supervised"]
     k = draw(st.sampled_from(kinds))
@@ -563,8 +573,9 @@ def base_desc(draw, max_n, unit_only=False):
     if len(set(Y)) < 2: Y[0], Y[1] = labels[0], labels[1]      # >= 2 actions: a length-1 pmf over one action is ambiguous by design
     return {"kind": "supervised", "X": X, "Y": Y, "label_type": "c", "form": "source"}
 
-def group_desc(draw, gi, max_n, logged=False, unit_only=False, max_fan=3, small=False):
-    base = base_desc(draw, max_n, unit_only)
+def group_desc(draw, gi, max_n, logged=False, unit_only=False, max_fan=3, small=False, batch=False):
+    min_n = MIN_BATCHED_N if batch else 1
+    base = base_desc(draw, max_n, unit_only, min_n)
     ops = []
     fan = 1
     if not unit_only and draw(st.integers(0, 5)) == 0:
@@ -596,16 +607,29 @@ def group_desc(draw, gi, max_n, logged=False, unit_only=False, max_fan=3, small=
         if draw(st.booleans()) and prefix == "none":
             ops.append(["chunk", {"cache": draw(st.booleans())}])
     if draw(st.booleans()):
-        ops.append(["take", {"n": draw(st.integers(1, max_n))}])
+        ops.append(["take", {"n": draw(st.integers(min(min_n, max_n), max_n))}])
+    if batch:
+        # batch sizes above every action count and above 2: for a batch of 2 or of len(actions) rows SafeLearner cannot tell a
+        # non-batch learner's (action, prob) / action-list answer from a batch answer (format ambiguity owned by C15)
+        ops.append(["batch", {"n": draw(st.sampled_from([6, 7, 8]))}])
     ops.append(["params", {"gtag": f"g{gi}"}])
     return {"base": base, "ops": ops}, fan
 
 def experiment_desc(draw, max_groups=3, max_n=30, max_triples=12, max_learners=4, max_evaluators=3, p_history=0.5,
-                    logged_share=0.35, p_tuples=0.4, allow_corral=True, eval_kinds=None, p_corral_refs=0.0, min_triples=2):
+                    logged_share=0.35, p_tuples=0.4, allow_corral=True, eval_kinds=None, p_corral_refs=0.0, min_triples=2, p_batched=0.3):
     """A generated experiment descriptor whose triples are all evaluable by construction (see module doc)."""
     logged = draw(st.integers(0, 99)) < logged_share * 100
+    # batched experiments: some (not necessarily all) groups end in .batch(n); simulated environments only (RejectionCB and
+    # Logged do not take batches), no Corral (not batch aware); History doubles then carry a per-instance batch flag
+    batched = (not logged) and draw(st.integers(0, 99)) < p_batched * 100
     n_lrn = draw(st.integers(1, max_learners))
-    learners = [learner_desc(draw, f"L{i}", logged=logged, allow_corral=allow_corral, p_history=p_history) for i in range(n_lrn)]
+    learners = [learner_desc(draw, f"L{i}", logged=logged, allow_corral=allow_corral and not batched, p_history=p_history, batched=batched) for i in range(n_lrn)]
+    if batched and n_lrn >= 2 and draw(st.booleans()):
+        # two instances of ONE class that differ in batch support (and nothing else that matters to the calling convention)
+        fmt = draw(st.sampled_from(["ap", "pmf"]))
+        first = draw(st.booleans())
+        learners[0] = {"kind": "history", "tag": "L0", "fmt": fmt, "score": False, "info": False, "batch": first}
+        learners[1] = {"kind": "history", "tag": "L1", "fmt": fmt, "score": False, "info": False, "batch": not first}
     has_corral = any(l["kind"] == "corral" for l in learners)
     if has_corral and draw(st.integers(0, 99)) < p_corral_refs * 100:
         plain = [i for i, l in enumerate(learners) if l["kind"] != "corral"]
@@ -616,7 +640,8 @@ def experiment_desc(draw, max_groups=3, max_n=30, max_triples=12, max_learners=4
     n_grp = draw(st.integers(1, max_groups))
     groups, fans = [], []
     for gi in range(n_grp):
-        g, fan = group_desc(draw, gi, max_n, logged=logged, unit_only=has_corral, max_fan=3)
+        g, fan = group_desc(draw, gi, max_n, logged=logged, unit_only=has_corral, max_fan=3,
+                            batch=batched and (gi == 0 or draw(st.booleans())))
         groups.append(g); fans.append(fan)
     n_env = sum(fans)
     n_val = draw(st.integers(0, max_evaluators))
@@ -648,7 +673,7 @@ def experiment_desc(draw, max_groups=3, max_n=30, max_triples=12, max_learners=4
     for _ in range(4):
         if len(static_triples(desc)) >= min_triples: break
         if desc["shape"] == "cross" or (n_env == 1 and len(desc["learners"]) == 1 and n_val <= 1):
-            desc["learners"].append(learner_desc(draw, f"L{len(desc['learners'])}", logged=logged, allow_corral=False, p_history=p_history))
+            desc["learners"].append(learner_desc(draw, f"L{len(desc['learners'])}", logged=logged, allow_corral=False, p_history=p_history, batched=batched))
         if desc["shape"] == "tuples":
             e, l, v = desc["tuples"][0]
             desc["tuples"] += [[e, l + 1, v], [e + 1, l, v]]
@@ -670,6 +695,12 @@ def desc_classes(desc):
     elif "chunk" in ops: out.append("chunk")
     if "cache" in ops: out.append("cache-prefix")
     if "logged" in ops: out.append("logged-envs")
+    nb = sum(any(op[0] == "batch" for op in g["ops"]) for g in desc["groups"])
+    if nb: out.append("batched-envs:" + ("all" if nb == len(desc["groups"]) else "some"))
+    inner = [(l["inner"] if l["kind"] == "faulty" else l) for l in desc["learners"]]
+    flags = {l.get("batch", False) and l.get("fmt") in ("ap", "pmf") for l in inner if l["kind"] == "history"}
+    if nb and flags == {True, False}: out.append("history-batch-and-nobatch")
+    if nb and any((l["inner"] if l["kind"] == "faulty" else l)["kind"] in ("random", "epsilon", "ucb") for l in desc["learners"]): out.append("builtin-on-batched")
     for l in desc["learners"]:
         d = l["inner"] if l["kind"] == "faulty" else l
         out.append("lrn=" + d["kind"] + (":" + d["fmt"] if d["kind"] == "history" else ""))
@@ -774,3 +805,75 @@ def state_of(o, _seen=None):
     if hasattr(o, "__dict__"): return [type(o).__name__, state_of(vars(o), seen)]
     if hasattr(o, "__slots__"): return [type(o).__name__, [[s, state_of(getattr(o, s, None), seen)] for s in o.__slots__]]
     return repr(o)
+
+# =============================================================================================== pristine-process reference
+# Class-level / module-level state inside coba survives between the cases a shard process runs, so a reference computed in
+# the harness process cannot expose an evaluation that depends on what the process evaluated earlier. A "zygote" process is
+# spawned once per harness process; it imports everything and never evaluates anything. For every reference it forks a child
+# (pristine interpreter state, millisecond cost) that builds the descriptor, runs it in-process and sends back the outcome.
+import multiprocessing as _mp
+
+def _zygote_main(conn):
+    import os, pickle, traceback
+    while True:
+        try:
+            desc = conn.recv()
+        except EOFError:
+            return
+        if desc is None: return
+        r, w = os.pipe()
+        pid = os.fork()
+        if pid == 0:
+            code = 0
+            try:
+                os.close(r)
+                del comps.FIRED[:]
+                try:
+                    o = run_built(build(desc))
+                    out = {"snapshot": None if o.result is None else snapshot(o.result), "log": o.log,
+                           "error": None if o.error is None else f"{type(o.error).__name__}: {o.error}", "fired": list(comps.FIRED)}
+                except BaseException as e:
+                    out = {"snapshot": None, "log": [], "error": "harness: " + "".join(traceback.format_exception(type(e), e, e.__traceback__))[-1500:], "fired": []}
+                with os.fdopen(w, "wb") as f: pickle.dump(out, f)
+            except BaseException:
+                code = 1
+            finally:
+                os._exit(code)
+        os.close(w)
+        with os.fdopen(r, "rb") as f: blob = f.read()
+        os.waitpid(pid, 0)
+        conn.send_bytes(blob)
+
+class _Zygote:
+    proc = None
+    conn = None
+
+def _zygote():
+    if _Zygote.proc is None or not _Zygote.proc.is_alive():
+        ctx = _mp.get_context("spawn")
+        parent, child = ctx.Pipe()
+        p = ctx.Process(target=_zygote_main, args=(child,), daemon=True)
+        p.start(); child.close()
+        _Zygote.proc, _Zygote.conn = p, parent
+    return _Zygote.conn
+
+FRESH_TIMEOUT_S = 120
+
+def run_fresh(desc):
+    """In-process run of build(desc) inside a *pristine* forked process. Returns a dict: snapshot, log, error (text), fired."""
+    conn = _zygote()
+    conn.send(desc)
+    if not conn.poll(FRESH_TIMEOUT_S):
+        _Zygote.proc.kill(); _Zygote.proc = None
+        raise Inconclusive(f"pristine-process reference still running after {FRESH_TIMEOUT_S}s")
+    blob = conn.recv_bytes()
+    if not blob:
+        raise Inconclusive("pristine-process reference died without an answer")
+    out = pickle.loads(blob)
+    if out["error"] and out["error"].startswith("harness: "):
+        raise RuntimeError("pristine-process reference failed inside the harness: " + out["error"])
+    return out
+
+def unexpected_failures(log):
+    """log lines that report an evaluation failure (everything except the IPS correlation warnings of SequentialCB)"""
+    return [l for l in log if "WARNING: the learner's predicted actions are highly correlated" not in l]
